@@ -40,6 +40,27 @@ Definition emit_bytes_of (l : list val) : out :=
   | None => ill
   end.
 
+Section SerComb.
+  (** [for item in data { item.serialize(writer)?; }] *)
+  Section Each. Variable f : val -> out.
+    Fixpoint each_out (l : list val) : out :=
+      match l with [] => done | x :: r => f x >> each_out r end.
+  End Each.
+  (** the fields of a tuple / struct / variant in declaration order, skipped ones omitted *)
+  Section Fields. Variable f : ty -> val -> out.
+    Fixpoint fields_out (ts : list ty) (sk : list bool) (l : list val) : out :=
+      match ts, sk, l with
+      | [], _, [] => done
+      | t' :: tr, s :: sr, x :: r => (if s then done else f t' x) >> fields_out tr sr r
+      | _, _, _ => ill
+      end.
+  End Fields.
+End SerComb.
+
+(** [serialize_slice]: the [u8_slice] fast path or element by element *)
+Definition slice_out (u8 : bool) (f : val -> out) (l : list val) : out :=
+  if u8 then emit_bytes_of l else each_out f l.
+
 Fixpoint ser (t : ty) (v : val) {struct t} : out :=
   match t with
   | TPrim p =>
@@ -58,17 +79,14 @@ Fixpoint ser (t : ty) (v : val) {struct t} : out :=
       | _ => ill
       end
   | TSeq k t' =>
-      let each := fix each (l : list val) : out :=
-                    match l with [] => done | x :: r => ser t' x >> each r end in
-      let slice := fun (l : list val) =>
-                     if is_u8 t' && uses_slice_path k then emit_bytes_of l else each l in
+      let slice := slice_out (is_u8 t' && uses_slice_path k) (ser t') in
       if ser_checks_zst k && mem_zst (key_ty k t') then fail InvalidData MZst else
       match k, v with
       | SDeque, VL [VL a; VL b] => emit_len (len a + len b) >> slice a >> slice b
       | SDeque, _ => ill
       | (SHashSet | SHashMap), VL l =>
           let sorted := sort_by (cmp_val (key_ty k t')) (key_val k) l in
-          emit_len (len sorted) >> each sorted
+          emit_len (len sorted) >> each_out (ser t') sorted
       | _, VL l => emit_len (len l) >> slice l
       | _, _ => ill
       end
@@ -76,34 +94,19 @@ Fixpoint ser (t : ty) (v : val) {struct t} : out :=
       match v with
       | VL l =>
           if n =? 0 then done
-          else if is_u8 t' then emit_bytes_of l
-          else (fix each (l : list val) : out :=
-                  match l with [] => done | x :: r => ser t' x >> each r end) l
+          else slice_out (is_u8 t') (ser t') l
       | _ => ill
       end
   | TProd k ts =>
       match v with
-      | VL l => (fix go (ts : list ty) (sk : list bool) (l : list val) : out :=
-                   match ts, sk, l with
-                   | [], _, [] => done
-                   | t' :: tr, s :: sr, x :: r =>
-                       (if s then done else ser t' x) >> go tr sr r
-                   | _, _, _ => ill
-                   end) ts (prod_skips k (length ts)) l
+      | VL l => fields_out (fun t' x => ser t' x) ts (prod_skips k (length ts)) l
       | _ => ill
       end
   | TSum k vs =>
       match v with
       | VV i x =>
           match nth_error (sum_tags k) (N.to_nat i) with
-          | Some tag =>
-              emit [n2b tag] >>
-              (fix pick (vs : list ty) (n : nat) : out :=
-                 match vs, n with
-                 | t' :: _, O => ser t' x
-                 | _ :: r, S n' => pick r n'
-                 | [], _ => ill
-                 end) vs (N.to_nat i)
+          | Some tag => emit [n2b tag] >> nth_or (fun t' => ser t' x) ill vs (N.to_nat i)
           | None => ill
           end
       | _ => ill
